@@ -60,6 +60,8 @@ ASSUMPTIONS = ["period keys are ISO-format dates (no ISO-week texts), sizes >= 1
                "amounts given to divide-rule variables are multiples of 166320 (6 * lcm(1..12)) so that every share, also of a year around a shared quarter, is exact",
                "floats are multiples of 1/4 below 2^24; ints stay within int32 (int16 for enum indices)",
                "texts given to numeric variables are decimal literals or alphabetic words (numexpr expressions are not generated)",
+               "the SCALE stream (33000-40000 persons, group kinds left undeclared) is checked by the oracle on the "
+               "implementation only; the model side of those cases is the empty case (the theorems are size-independent)",
                "values are scalars in the entity shapes and scalars or homogeneous arrays in the variables-only shape",
                "long periods declared for one variable are nested and never fully covered by shorter declared ones "
                "(no 'inconsistent input' documents)",
@@ -408,9 +410,71 @@ def build_one(S, doc):
         return Err(errkind(e), f"{type(e).__name__}: {e}"[:200])
 
 
+SCALE_MARKS = [0, 1, 127, 128, 255, 256, 32766, 32767, 32768, 32769, 65535, 65536]
+
+
+def scale_doc(c):
+    """Many persons, no group declared: built here, not stored in the case."""
+    n = c["n"]
+    marks = [i for i in SCALE_MARKS if i < n] + [n - 1]
+    persons = {f"p{i}": {} for i in range(n)}
+    for i in marks:
+        persons[f"p{i}"] = {"p_int_m": {"2018-01": i % 1000 + 1}, "p_big_e": {"ETERNITY": BIG_NAMES[i % 150]}}
+    return {"persons": persons}, marks
+
+
+def run_scale(c):
+    S = SYSTEMS[c["sys"]]
+    doc, marks = scale_doc(c)
+    sim = SimulationBuilder().build_from_dict(S.tbs, doc)
+    n = c["n"]
+    out = [int(sim.persons.count), [str(sim.persons.ids[i]) for i in marks]]
+    for g in S.groups:
+        pop = sim.populations[g.key]
+        mem = numpy.asarray(pop.members_entity_id).astype("int64")
+        bad = numpy.nonzero(mem != numpy.arange(len(mem)))[0]
+        roles = numpy.atleast_1d(pop.members_role)
+        out.append([g.key, int(pop.count), len(mem), int(bad[0]) if len(bad) else -1,
+                    int(mem[bad[0]]) if len(bad) else 0,
+                    all(r.key == S.flattened(g.key)[0] for r in roles[marks]),
+                    [str(pop.ids[i]) for i in marks]])
+    a = sim.persons.get_holder("p_int_m").get_array("2018-01")
+    e = sim.persons.get_holder("p_big_e").get_array("eternity")
+    out.append([[int(a[i]) for i in marks], [int(e[i]) for i in marks], int((a != 0).sum())])
+    return out
+
+
+def check_scale(c, o):
+    n = c["n"]
+    marks = [i for i in SCALE_MARKS if i < n] + [n - 1]
+    if o[0] != n or o[1] != [f"p{i}" for i in marks]:
+        return f"scale ids: {o[0]} persons built for {n} declared"
+    for g in o[2:-1]:
+        key, count, nmem, bad, badval, roles_ok, ids = g
+        if count != n or nmem != n:
+            return f"scale own-groups: {count} {key} groups / {nmem} memberships for {n} persons left out"
+        if bad != -1:
+            return f"scale own-groups: person #{bad} is in {key} group {badval}, not in a group of its own"
+        if not roles_ok or ids != [f"p{i}" for i in marks]:
+            return f"scale own-groups: roles / ids of the {key} groups are not those of the persons"
+    vals, enums, nonzero = o[-1]
+    if vals != [i % 1000 + 1 for i in marks] or nonzero != len(set(marks)):
+        return f"scale value: declared values read back as {vals} ({nonzero} persons hold a value)"
+    if enums != [i % 150 for i in marks]:
+        return f"scale value: declared enum members read back as {enums}"
+    return None
+
+
 def run_impl(c):
+    if c["kind"] == "scale":
+        return run_scale(c)
     S = SYSTEMS[c["sys"]]
     return [build_one(S, d) for d in c["docs"]]
+
+
+def obs_for_coq(c, o):
+    # the scale stream is checked on the implementation only
+    return [] if c["kind"] == "scale" else o
 
 
 # ---- naive reading of a document (oracle side) ------------------------------------------------
@@ -693,9 +757,13 @@ def check_axes(S, c, o):
 
 def oracle(c, o):
     if isinstance(o, Err):
+        if c["kind"] == "scale":
+            return f"scale well-formed: {c['n']} persons without declared groups were refused ({o.kind}: {o.msg[:120]})"
         return f"harness: run_impl failed: {o.kind} {o.msg}"
     S = SYSTEMS[c["sys"]]
     kind = c["kind"]
+    if kind == "scale":
+        return check_scale(c, o)
     if kind == "mutant":
         r = o[0]
         if isinstance(r, Err):
@@ -733,12 +801,14 @@ def known(c, o, msg):
 def nontrivial(c, o):
     if isinstance(o, Err):
         return False
-    if c["kind"] == "mutant":
+    if c["kind"] in ("mutant", "scale"):
         return True
     return any(not isinstance(r, Err) and any(entries for e in r for _, entries in e[5]) for r in o)
 
 
 def classify(c, o):
+    if c["kind"] == "scale":
+        return f"scale/sys{c['sys']}"
     if c["kind"] == "mutant":
         res = "?" if isinstance(o, Err) else (o[0].kind if isinstance(o[0], Err) else "built")
         return f"mutant/{c['shape']}/{c['mut']}/{res}"
@@ -1088,6 +1158,13 @@ def gen_axis(rng, S, v, count, counts, idx_max):
         mn, mx = (0, 2) if count in (2, 3) else (rng.randint(0, 2),) * 2
         if count == 2 and rng.random() < 0.5:
             mn, mx = 2, 0
+    elif t == "int" and rng.random() < 0.3:
+        # integers that float32 cannot hold, up to the int32 range
+        mn = rng.choice([2**24 + 1, 2**24 + 3, 2**25 + 1, 2_000_000_001, 2**31 - 1 - 4 * max(count - 1, 1)])
+        step = rng.choice([1, 2, 3, 4])
+        mx = mn + step * (count - 1) if count > 1 else mn
+        if rng.random() < 0.3:
+            mn, mx = mx, mn
     else:
         mn = rng.randint(-20, 200) * (1 if t == "int" else 0.25)
         step = rng.randint(0, 50) * (1 if t == "int" else 0.25)
@@ -1453,6 +1530,12 @@ def fixed_cases():
              "households": {"h": {"parents": ["a", "b"]}},
              "axes": [[{"count": 3, "name": "p_big_m", "min": 127, "max": 129, "period": "2018-01", "index": 1}]]}
     case("axes", "full", [bigax] + expand_copies(SYSTEMS[A], bigax, bigax["axes"]), meta={"ordered": True})
+    for mn, mx in ((2**24 + 1, 2**24 + 5), (2_000_000_001, 2_000_000_005)):
+        bx = {"persons": {"a": {"p_int_m": {"2018-01": 3}}, "b": {}},
+              "households": {"h": {"parents": ["a", "b"], "h_rent": {"2018-01": 2**24 + 1}}},
+              "axes": [[{"count": 3, "name": "p_int_m", "min": mn, "max": mx, "period": "2018-01"},
+                        {"count": 3, "name": "p_int_y", "min": mx, "max": mn, "period": "2018", "index": 1}]]}
+        case("axes", "full", [bx] + expand_copies(SYSTEMS[A], bx, bx["axes"]), meta={"ordered": True})
     # weeks and week days whose ISO year is not the calendar year of their first day
     case("spelling", "full", [
         {"persons": {"a": {"p_int_w": {"week:2018-12-31": 5, "week:2014-12-29": 6},
@@ -1473,6 +1556,13 @@ def generate(rng, tier):
 
     def sysname():
         return rng.choice(["A", "A", "B"])
+    # scale: more persons than a 16-bit index can count, no group declared (oracle only)
+    for sysn in ("A", "B"):
+        cases.append({"sys": sysn, "kind": "scale", "shape": "full", "n": rng.randint(33000, 40000),
+                      "docs": [], "mut": None, "meta": {}})
+    if tier != "quick":
+        cases.append({"sys": "A", "kind": "scale", "shape": "full", "n": rng.randint(65600, 70000),
+                      "docs": [], "mut": None, "meta": {}})
     # valid documents, all shapes
     for i in range(220 * scale):
         S = SYSTEMS[sysname()]
